@@ -1142,6 +1142,17 @@ def sh_ls_truncated(ctx):
     return Shape(be(code, 2) + sym(ctx, 'len', 2) + sym(ctx, 'p', n - 4))
 
 
+def sh_ls_apart(ctx):
+    """A, B, A and A, B, C, A: a TLV which may not repeat comes back with other TLVs in between (RFC 9552 does not order the
+    TLVs of the attribute)"""
+    a, na = ctx.pick('repeated', ((1092, 4), (1095, 3), (1026, 2)))
+    between = ctx.pick('between', (((1088, 1),), ((1028, 4), (4242, 2))))
+    mid = []
+    for i, (b, nb) in enumerate(between):
+        mid += be(b, 2) + be(nb, 2) + sym(ctx, 'm%d' % i, nb)
+    return Shape(be(a, 2) + be(na, 2) + sym(ctx, 'a', na) + mid + be(a, 2) + be(na, 2) + sym(ctx, 'b', na))
+
+
 def sh_ls_two(a, na, b, nb):
     return lambda ctx: Shape(be(a, 2) + be(na, 2) + sym(ctx, 'a', na) + be(b, 2) + be(nb, 2) + sym(ctx, 'b', nb))
 
@@ -1362,6 +1373,7 @@ def attr_plans(tier):
             add(c + '/unknown-tlv', code, flag, sh_ls(4242, rng(0, 5)), ('decoded',))
             add(c + '/two-tlvs', code, flag, sh_ls_two(1095, 3, 1092, 4), ('decoded',))
             add(c + '/repeated', code, flag, sh_ls_two(1092, 4, 1092, 4), ('refused',))
+            add(c + '/repeated-apart', code, flag, sh_ls_apart, ('refused',))
             add(c + '/truncated', code, flag, sh_ls_truncated, ('decoded', 'refused'))
         elif code == 32:
             add(c + '/chunks', code, flag, sh_large, ('decoded', 'canonical', 'non-canonical'), weight=40)
